@@ -59,6 +59,64 @@ def group_ok(g: list[OTelEvent], m: dict[str, str]) -> bool:
     return ((len(g) == 1 and g[0].event_type not in m)
             or (g[0].event_type in m and all(e.event_type in m and m[e.event_type] == m[g[0].event_type] for e in g)))
 
+# ---- the documented sequencing rule, written once (docs/user/sequencer_HOWTO.md): LINKS(e, P) are the predecessor
+# links of the subtree of e when the spans preceding it are P: the children of e are grouped (prior information, then
+# start order / overlapping chains); the members of group k are sequenced recursively after group k-1 (after P for the
+# first group) and e itself follows its last group (P if it has no children).
+@opaque
+def size(e: OTelEvent) -> int:
+    return 0
+
+@opaque
+def links_undef(e: OTelEvent, M: dict[str, OTelEvent], P: list[str], flag: bool, G: dict[str, dict[str, str]]) -> dict[str, list[str]]:
+    return {}
+
+def wf(e: OTelEvent, M: dict[str, OTelEvent]) -> bool:
+    return e.child_event_ids is not None and all(c in M and 0 <= size(M[c]) < size(e) for c in e.child_event_ids)
+
+def kids(e: OTelEvent, M: dict[str, OTelEvent]) -> list[OTelEvent]:
+    return [M[c] for c in e.child_event_ids]
+
+def tmap(e: OTelEvent, G: dict[str, dict[str, str]]) -> dict[str, str]:
+    return G[e.event_type] if e.event_type in G else {}
+
+def groups_of(e: OTelEvent, M: dict[str, OTelEvent], flag: bool, G: dict[str, dict[str, str]]) -> list[list[OTelEvent]]:
+    return (sequence_groups_of_otel_events_asynchronously(group_events_using_async_information(kids(e, M), tmap(e, G))) if flag
+            else order_groups_by_start_timestamp(group_events_using_async_information(kids(e, M), tmap(e, G))))
+
+def lastP(gs: list[list[OTelEvent]], P: list[str]) -> list[str]:
+    return P if len(gs) == 0 else [x.event_id for x in gs[-1]]
+
+def LINKS(e: OTelEvent, M: dict[str, OTelEvent], P: list[str], flag: bool, G: dict[str, dict[str, str]]) -> dict[str, list[str]]:
+    return (dict_store(LG(groups_of(e, M, flag, G), M, P, flag, G), e.event_id, lastP(groups_of(e, M, flag, G), P))
+            if wf(e, M) else links_undef(e, M, P, flag, G))
+
+def LG(gs: list[list[OTelEvent]], M: dict[str, OTelEvent], P: list[str], flag: bool, G: dict[str, dict[str, str]]) -> dict[str, list[str]]:
+    return {} if len(gs) == 0 else dict_update(LG(gs[:-1], M, P, flag, G), LE(gs[-1], M, lastP(gs[:-1], P), flag, G))
+
+def LE(g: list[OTelEvent], M: dict[str, OTelEvent], P: list[str], flag: bool, G: dict[str, dict[str, str]]) -> dict[str, list[str]]:
+    return {} if len(g) == 0 else dict_update(LE(g[:-1], M, P, flag, G), LINKS(g[-1], M, P, flag, G))
+
+def pl(P: Optional[list[str]]) -> list[str]:
+    return P if P is not None else []
+
+def gm(G: Optional[dict[str, dict[str, str]]]) -> dict[str, dict[str, str]]:
+    return G if G is not None else {}
+
+# ---- whole-job consequences named in the property statement (defined natively; opaque to the solver, so the clauses that
+# use them are "stated, not discharged" and are decided at run time on all small trees - bounded, never counted as proved)
+@opaque
+def pv_acyclic(job: list[PVEvent]) -> bool:
+    return True
+
+@opaque
+def pv_after_descendants(job: list[PVEvent], M: dict[str, OTelEvent]) -> bool:
+    return True
+
+@opaque
+def pv_starts(job: list[PVEvent]) -> int:
+    return 1
+
 def sorted_by_start(g: list[OTelEvent]) -> bool:
     return all(g[a].start_timestamp <= g[b].start_timestamp for a in range(len(g)) for b in range(a, len(g)))
 
@@ -176,18 +234,43 @@ CONTRACTS = {
     # the C16 contract of this function lives in contracts/c16.py; here it is only a pure symbol
     "unix_nano_to_pv_string": {"trusted": True, "pure": True},
     "sequence_otel_event_ancestors": {
-        "pure": True, "trusted": True,   # replaced below by its own contract once the LINKS specification is in place
-        "returns": "dict[str, list[str]]",
+        "pure": True,
+        "requires": {
+            # is_tree, stated over every span object (closed world: the job is all the spans there are): child lists present,
+            # children resolve inside the job, and a ghost size decreases from parent to child (no cycles)
+            "tree": "forall(lambda x: wf(x, event_id_to_event_map), 'OTelEvent', triggers=[x.child_event_ids])",
+        },
+        "ensures": {
+            # the recursion computes exactly the links of the documented rule
+            "links": "maps_agree(result, LINKS(event, event_id_to_event_map, pl(previous_event_ids), async_flag, gm(event_to_async_group_map)))",
+        },
+        "loops": {
+            0: {"index": "i", "invariant": {
+                "done_groups": "maps_agree(event_id_to_previous_event_ids, LG(event_groups[:i], event_id_to_event_map, pl(old(previous_event_ids)), "
+                               "async_flag, gm(old(event_to_async_group_map))))",
+                "prev": "previous_event_ids is not None and pl(previous_event_ids) == lastP(event_groups[:i], pl(old(previous_event_ids)))",
+                "gmap": "event_to_async_group_map is not None and gm(event_to_async_group_map) == gm(old(event_to_async_group_map))",
+            }},
+            1: {"index": "j", "invariant": {
+                "done_members": "maps_agree(event_id_to_previous_event_ids, dict_update("
+                                "LG(event_groups[:i], event_id_to_event_map, pl(old(previous_event_ids)), async_flag, gm(old(event_to_async_group_map))), "
+                                "LE(group[:j], event_id_to_event_map, pl(previous_event_ids), async_flag, gm(old(event_to_async_group_map)))))",
+            }},
+        },
+        "locals": {"event_id_to_previous_event_ids": "dict[str, list[str]]", "event_type_to_group_map": "dict[str, str]"},
     },
     "sequence_otel_event_job": {
         "generator": True,
         "returns": "list[PVEvent]",
+        "requires": {
+            "tree": "forall(lambda x: wf(x, event_id_to_event_map), 'OTelEvent', triggers=[x.child_event_ids])",
+        },
         "raises": {
             "ValueError": "len([e for e in event_id_to_event_map.values() if e.parent_event_id is None]) != 1",
+            # a span that is not reachable from the root has no links: the job cannot be emitted
             "KeyError": "len([e for e in event_id_to_event_map.values() if e.parent_event_id is None]) == 1 and "
-                        "any(k not in sequence_otel_event_ancestors(get_root_event_from_event_id_to_event_map(event_id_to_event_map), "
-                        "event_id_to_event_map, None, async_flag, event_to_async_group_map if event_to_async_group_map is not None else {}) "
-                        "for k in event_id_to_event_map)",
+                        "any(k not in LINKS(get_root_event_from_event_id_to_event_map(event_id_to_event_map), "
+                        "event_id_to_event_map, [], async_flag, gm(event_to_async_group_map)) for k in event_id_to_event_map)",
         },
         "ensures": {
             # "the emitted PV job contains each span exactly once with its job id, workflow name, type, application and end time"
@@ -198,9 +281,13 @@ CONTRACTS = {
                       "and result[q]['applicationName'] == event_id_to_event_map[list(event_id_to_event_map)[q]].application_name "
                       "and result[q]['timestamp'] == unix_nano_to_pv_string(event_id_to_event_map[list(event_id_to_event_map)[q]].end_timestamp) "
                       "for q in range(len(event_id_to_event_map)))",
-            "links": "all(result[q]['previousEventIds'] == sequence_otel_event_ancestors("
-                     "get_root_event_from_event_id_to_event_map(event_id_to_event_map), event_id_to_event_map, None, async_flag, "
-                     "event_to_async_group_map if event_to_async_group_map is not None else {})[list(event_id_to_event_map)[q]] "
+            # "its predecessor links form an acyclic, single-start order in which each span follows all of its descendants"
+            "acyclic": "pv_acyclic(result)",
+            "after_descendants": "pv_after_descendants(result, event_id_to_event_map)",
+            "single_start": "implies(not async_flag and len(gm(event_to_async_group_map)) == 0, pv_starts(result) == 1)",
+            # "the links are exactly those of the documented rules": LINKS from the root with no predecessor
+            "links": "all(result[q]['previousEventIds'] == LINKS(get_root_event_from_event_id_to_event_map(event_id_to_event_map), "
+                     "event_id_to_event_map, [], async_flag, gm(event_to_async_group_map))[list(event_id_to_event_map)[q]] "
                      "for q in range(len(event_id_to_event_map)))",
         },
         "loops": {0: {"index": "i", "invariant": {
@@ -284,7 +371,61 @@ def native_env(nat):
         ka = sorted(id(x) if hasattr(x, "__dict__") else hash(x) for x in a)
         kb = sorted(id(x) if hasattr(x, "__dict__") else hash(x) for x in b)
         return ka == kb
-    return {"count": count, "perm": perm}
+    def size(e, _seen=None):
+        """ghost measure of the tree precondition: number of spans in the subtree (infinite on a cycle)"""
+        by_id = {x.event_id: x for x in nat.universe.get("OTelEvent", [])}
+        seen = set() if _seen is None else _seen
+        if e.event_id in seen:
+            return float("inf")
+        seen = seen | {e.event_id}
+        return 1 + sum(size(by_id[c], seen) for c in (e.child_event_ids or []) if c in by_id)
+
+    def links_undef(*a):
+        raise ValueError("LINKS is undefined outside well-formed trees")
+    def _preds(job):
+        return {p["eventId"]: list(p["previousEventIds"]) for p in job}
+
+    def pv_acyclic(job):
+        pr = _preds(job)
+        state = {}
+
+        def visit(x):
+            if state.get(x) == 1:
+                return False
+            if state.get(x) == 2 or x not in pr:
+                return True
+            state[x] = 1
+            ok = all(visit(y) for y in pr[x])
+            state[x] = 2
+            return ok
+        return all(visit(x) for x in pr)
+
+    def pv_after_descendants(job, M):
+        pr = _preds(job)
+
+        def before(x):   # everything that precedes x (transitively)
+            out, stack = set(), list(pr.get(x, []))
+            while stack:
+                y = stack.pop()
+                if y not in out:
+                    out.add(y)
+                    stack.extend(pr.get(y, []))
+            return out
+
+        def desc(x):
+            out, stack = set(), list(M[x].child_event_ids or [])
+            while stack:
+                y = stack.pop()
+                if y not in out and y in M:
+                    out.add(y)
+                    stack.extend(M[y].child_event_ids or [])
+            return out
+        return all(desc(x) <= before(x) for x in M if x in pr)
+
+    def pv_starts(job):
+        return sum(1 for p in job if not p["previousEventIds"])
+    return {"count": count, "perm": perm, "size": size, "links_undef": links_undef, "pv_acyclic": pv_acyclic,
+            "pv_after_descendants": pv_after_descendants, "pv_starts": pv_starts}
 
 
 # ----------------------------------------------------------------------------- native generators / replay encoding
@@ -515,6 +656,22 @@ def _small_job(nat):
         yield {"event_id_to_event_map": job, "async_flag": False, "event_to_async_group_map": {"R": {"A": "g1", "Z": "g2"}}}
 
 
+def _gen_ancestors(nat, rng, n):
+    for case in _gen_job(nat, rng, n):
+        job = case["event_id_to_event_map"]
+        ev = rng.choice(list(job.values()))
+        prev = rng.choice([None, [], ["p1"], ["p1", "p2"]])
+        yield {"event": ev, "event_id_to_event_map": job, "previous_event_ids": prev, "async_flag": case["async_flag"],
+               "event_to_async_group_map": case["event_to_async_group_map"]}
+
+
+def _small_ancestors(nat):
+    for case in _small_job(nat):
+        job = case["event_id_to_event_map"]
+        yield {"event": job["s0"], "event_id_to_event_map": job, "previous_event_ids": None, "async_flag": case["async_flag"],
+               "event_to_async_group_map": case["event_to_async_group_map"]}
+
+
 GEN = {
     "order_groups_by_start_timestamp": lambda nat, rng, n: ({"groups": _rand_groups(nat, rng, True)} for _ in range(n)),
     "sequence_groups_of_otel_events_asynchronously": lambda nat, rng, n: ({"groups": _rand_groups(nat, rng)} for _ in range(n)),
@@ -523,9 +680,11 @@ GEN = {
     "update_event_type_based_on_children": _gen_rename,
     "convert_otel_event_stream_to_event_id_to_otelevent_map": _gen_stream,
     "sequence_otel_event_job": _gen_job,
+    "sequence_otel_event_ancestors": _gen_ancestors,
 }
 SMALL = {
     "sequence_groups_of_otel_events_asynchronously": _small_async,
     "group_events_using_async_information": _small_group_events,
     "sequence_otel_event_job": _small_job,
+    "sequence_otel_event_ancestors": _small_ancestors,
 }
